@@ -594,7 +594,7 @@ func (r *runner) unresponsive(t Target, mk func() (Target, error), batchStart in
 			from = 0
 		}
 		input = map[string]any{"culprit": describe(t, c.c, c.in), "inputs_before_it_on_a_fresh_server": labels(hist[from:idx])}
-		what = "after this input a new client can no longer complete initialize / notifications/initialized / tools/list on a new connection: " + why2
+		what = "after this input the server no longer serves (probe: the connection in use, then a new connection with initialize / notifications/initialized / tools/list): " + why2
 	}
 	r.s.Violate(hk.Violation{Fingerprint: "rpc:" + t.Kind() + ":unresponsive-after-input:" + class, What: what, Input: input,
 		Observed: why, Expected: "the next well-formed request from any client is served normally"})
